@@ -362,6 +362,16 @@ def handleRN (st : Option RNState) (cmd : List String) : Option RNState × Strin
       match parseRnd rnd with
       | none => (none, "bad-op")
       | some rnd =>
+        if op == "on_entries_fetched" then
+          -- `on_entries_fetched <to> <term> <aggressively>`
+          match (do let a ← nat; let b ← nat; let c ← bool; pure (a, b, c) : P (Nat × Nat × Bool)).run rest with
+          | some ((to, term, aggr), []) =>
+            match Node.onEntriesFetched { st with raft := { st.raft with nextRand := rnd } } to term aggr with
+            | .ok (res, st') => (some st', fmtRes res ++ " | " ++ view st')
+            | .err _ => (none, "panic")
+            | .panic _ => (none, "panic")
+          | _ => (none, "bad-op")
+        else
         match (parseOp op).run rest with
         | some (nop, []) =>
           match Node.call st rnd nop with
